@@ -57,7 +57,11 @@ def sort_functions_and_order(chk, jvh, rnd, quick):
                        for j in range(n)])
         f = rnd.choice(["(sort_by . .k)", "(order_by . .k)", "(sort_by . (get . \"k\"))", "(sort (map . .k))", "(sort_unique (map . .k))",
                         "(sort_by_values (fold . {} (put .so_far (stringify .index) .value.k)))", "(keys (sort_by_keys (fold . {} (put .so_far (stringify .value.k) .index))))",
-                        "(sort_by_values_by (fold . {} (put .so_far (stringify .index) .value)) (.get \"k\"))"])
+                        "(sort_by_values_by (fold . {} (put .so_far (stringify .index) .value)) (.get \"k\"))",
+                        # the order of the members is the result: read it off with keys, under names that do not arrive in ascending order
+                        "(keys (sort_by_values (fold . {} (put .so_far (concat \"n\" (stringify (- 100 .index))) .value.k))))",
+                        "(keys (sort_by_values_by (fold . {} (put .so_far (concat \"n\" (stringify (- 100 .index))) .value)) (.get \"k\")))",
+                        "(keys (sort_by_values (fold . {} (put .so_far (stringify .index) .value.k))))"])
         items.append((f, lst))
     cases = []
     for i, (txt, inp) in enumerate(items):
